@@ -232,6 +232,10 @@ func (s *subject) runHistory(seq []int) (v *hx.Violation, states map[uint64]bool
 	if err != nil {
 		return mk("refused", "model does not load: "+err.Error()), states, 0
 	}
+	declaredIn := map[string]bool{} // outputs that the graph also declares as inputs (passed through to the caller as they are)
+	for _, n := range m.InputNames() {
+		declaredIn[n] = true
+	}
 	TA, TB := gonnx.Tensors{}, gonnx.Tensors{}
 	for k, t := range s.FeedA {
 		TA[k] = hx.ToG(t)
@@ -343,9 +347,11 @@ func (s *subject) runHistory(seq []int) (v *hx.Violation, states map[uint64]bool
 						own = true
 					}
 				}
-				if own {
-					continue
+				if own && declaredIn[o] {
+					continue // the graph declares one of its inputs as an output: that IS the caller's tensor
 				}
+				// otherwise a result that is (or shares storage with) a tensor the caller passed in is not the caller's
+				// to lose: overwriting the result then shows as a changed input below
 				if rt, e := hx.FromG(t); e == nil {
 					for i := range rt.V {
 						rt.V[i] = ^rt.V[i] & (1<<uint(rt.DT.Bits()) - 1)
